@@ -1084,6 +1084,21 @@ struct Scanner : RecursiveASTVisitor<Scanner> {
             usings.push_back(std::move(u));
          }
       o["usings"] = std::move(usings);
+      // member function templates (not instantiated unless used, so they do not show up among the methods)
+      json::Array mtemps;
+      for (auto D : RD->decls())
+         if (auto FT = dyn_cast<FunctionTemplateDecl>(D)) {
+            json::Object t;
+            t["name"] = FT->getNameAsString();
+            t["ln"] = (int64_t)lineOf(FT->getLocation());
+            if (auto M = dyn_cast_or_null<CXXMethodDecl>(FT->getTemplatedDecl())) {
+               t["const"] = M->isConst();
+               t["static"] = M->isStatic();
+               t["nparams"] = (int64_t)M->getNumParams();
+            }
+            mtemps.push_back(std::move(t));
+         }
+      o["method_templates"] = std::move(mtemps);
       json::Array methods;
       for (auto M : RD->methods()) {
          json::Object m;
